@@ -559,7 +559,7 @@ class Prop(Check):
     ]
     DRIVER = "Drivers/Mult.lean"
     QUICK_CASES = 300
-    THOROUGH_CASES = 8000
+    THOROUGH_CASES = 20000
     PROCS_THOROUGH = 4
     RULE = ("grammar whose rule bodies assign <=3 attributes at <=7 sites under nested sequence / ordered choice / "
             "optional / repetition (with separators) / unordered group with all four operators and INT, FLOAT, BOOL, "
@@ -798,6 +798,8 @@ class Prop(Check):
             return f"grammar not loaded by the implementation: {g}"
         if any(mrej):
             return f"grammar accepted by the implementation but rejected by the model ({[x for x in mrej if x]})"
+        if not all(r["wf"] for r in out["rules"]):
+            return "rule body with an empty choice (hypothesis of C02_list_iff_collect not met)"
         for (r, _, attrs, _), mo in zip(rules, out["rules"]):
             im = g["ok"].get(r, {})
             if list(im) != attrs:
@@ -936,7 +938,7 @@ class Prop(Check):
     def extra_evidence(self, cases, obs, outs):
         d = {"grammars_accepted": 0, "grammars_rejected": 0, "texts": 0, "texts_accepted": 0, "texts_mutated": 0,
              "objects_checked": 0, "events": 0, "falsy_values": 0, "list_attrs": 0, "scalar_attrs": 0,
-             "attrs_with_2plus_values_in_some_text": 0}
+             "attrs_with_2plus_values_in_some_text": 0, "watchdog": 0}
         d["exact_multiplicity_agreement"] = [0, 0]
         for c, o, mo in zip(cases, obs, outs):
             if isinstance(o, dict) and "ok" in o.get("grammar", {}) and isinstance(mo, dict) and "rules" in mo:
@@ -958,6 +960,7 @@ class Prop(Check):
                 d["texts"] += 1
                 d["texts_mutated"] += tc.get("origin") == "mutated"
                 p = t.get("parse", {})
+                d["watchdog"] += p.get("other") == "Watchdog" or t.get("model", {}).get("other") == "Watchdog"
                 if "ok" in p:
                     d["texts_accepted"] += 1
                     for ob in p["ok"]["objs"]:
